@@ -142,6 +142,8 @@ func genC18(g *Gen, idx int) *Plan {
 		cfg.Sched.StallProb = 0.02 + g.Float()*0.2
 		cfg.Sched.MaxStall = 2 * time.Second
 	}
+	// a call released by its gate event may overtake the timer goroutine parked inside timeout()
+	cfg.Sched.Overlap = g.Bool(0.7)
 	delays := []int64{0, 1, 1000, 1e6, 1e9}
 	tx := &TXPlan{Kind: []string{"retry", "timed"}[g.Intn(2)], DelayNs: delays[g.Intn(len(delays))], Count: uint(g.Intn(4))}
 	if g.Bool(0.15) {
